@@ -284,7 +284,7 @@ func ruleOffsetArithmetic64(c *Ctx) {
 			})
 		}
 	}
-	c.Floor(rule, "utils/io offset functions", "integer products and conversions", n, 3)
+	c.Floor(rule, "utils/io offset functions", "integer products and conversions", n, 2)
 }
 
 // R33.5 — the CSV reader of the loader is strict: LazyQuotes stays off and the field count is
